@@ -1,8 +1,9 @@
 import VlsModel.Drv.Common
-/- Line-protocol models serving property C14 (none yet). -/
+import VlsModel.Drv.Chain
+/- Line-protocol models serving property C14. -/
 namespace VlsModel.Drv.C14
 open VlsModel.Drv
 
-def models : List (String × Model) := []
+def models : List (String × Model) := [ ("monitor", Chain.monitorModel) ]
 
 end VlsModel.Drv.C14
